@@ -34,7 +34,7 @@ def gen_cases(tier, seed):
     cases = []
     Akinds = ["zero", "uniform", "ramp", "osc", "uniform_float"]
     Ikinds = ["integers", "decimal", "callable", "const", "pulse"]
-    unit_sets = [("um", "mT", "uA"), ("nm", "uT", "nA"), ("mm", "T", "mA"), ("um", "uT", "uA")]
+    unit_sets = [("um", "mT", "uA"), ("nm", "uT", "nA"), ("mm", "T", "mA"), ("um", "uT", "mA"), ("nm", "mT", "uA"), ("um", "uT", "uA")]
     for k in range(n):
         nt = [2, 3, 4][k % 3]
         nh = int(k % 4 == 1)
@@ -61,6 +61,8 @@ def gen_cases(tier, seed):
             case["remesh"] = {"factor": float(rng.choice([0.6, 1.5]))}
         if k % 7 == 2 and not scr:
             o["skip_time"] = 0.1 * o["solve_time"]
+        if k % 8 == 5:
+            case["solve_twice"] = True  # one TDGLSolver object, solve() called twice
         cases.append(case)
     return cases
 
@@ -155,6 +157,6 @@ def run_case(spec):
     if spec.get("remesh"):
         out.setdefault("counters", {})["remeshed_device_runs"] = 1
     if "classes" not in out:
-        out["classes"] = S.classes_of(spec) + (["remeshed"] if spec.get("remesh") else []) + (["thermalised"] if spec["options"].get("skip_time") else [])
+        out["classes"] = S.classes_of(spec) + (["remeshed"] if spec.get("remesh") else []) + (["thermalised"] if spec["options"].get("skip_time") else []) + (["solve_twice"] if spec.get("solve_twice") else [])
     out["nontrivial"] = out["counters"].get("states_with_injection", 0) >= 10
     return out
